@@ -13,7 +13,17 @@ import (
 
 var verifC04Types = []string{v3.ClusterType, v3.EndpointType, v3.ListenerType, v3.RouteType, v3.SecretType, v3.AddressType}
 
-var verifC04NameLists = [][]string{nil, {"a"}, {"b"}, {"a", "b"}, {"a", "a"}, {"b", "c"}}
+var verifC04NameLists = [][]string{nil, {"a"}, {"b"}, {"a", "b"}, {"a", "a"}, {"b", "c"},
+	// thorough only
+	{"c"}, {"a", "b", "c"}, {"b", "a"}, {"a", "c", "a"}}
+
+// quick uses the first 6 lists (first 4 for the record), thorough all of them
+func verifC04NLists(quick int, all int) int {
+	if vp.Tier() > 0 {
+		return all
+	}
+	return quick
+}
 
 func verifSetOf(xs []string) sets.String { return sets.New(xs...) }
 
@@ -40,14 +50,14 @@ func VerifC04SotwStep() {
 	nonceSent := ""
 	always := false
 	if hasRec {
-		prev = verifC04NameLists[vp.Choice("prevNames", 4)]
+		prev = verifC04NameLists[vp.Choice("prevNames", verifC04NLists(4, len(verifC04NameLists)))]
 		nonceSent = vp.String("nonceSent", 3)
 		always = vp.Choice("alwaysRespond", 2) == 1
 		proxy.WatchedResources[typeURL] = &model.WatchedResource{
 			TypeUrl: typeURL, ResourceNames: verifSetOf(prev), NonceSent: nonceSent, NonceAcked: "old", AlwaysRespond: always,
 		}
 	}
-	names := verifC04NameLists[vp.Choice("reqNames", len(verifC04NameLists))]
+	names := verifC04NameLists[vp.Choice("reqNames", verifC04NLists(6, len(verifC04NameLists)))]
 	nonce := vp.String("nonce", 3)
 	hasErr := vp.Choice("hasErr", 2) == 1
 	req := &discovery.DiscoveryRequest{TypeUrl: typeURL, ResponseNonce: nonce, ResourceNames: names, VersionInfo: "v"}
@@ -98,7 +108,9 @@ func VerifC04SotwStep() {
 	}
 }
 
-var verifC04DeltaLists = [][]string{nil, {"a"}, {"b"}, {"a", "b"}, {"*"}, {"*", "a"}}
+var verifC04DeltaLists = [][]string{nil, {"a"}, {"b"}, {"a", "b"}, {"*"}, {"*", "a"},
+	// thorough only
+	{"c"}, {"b", "c"}, {"a", "a"}, {"*", "*"}}
 
 // one-step delta: arbitrary record, arbitrary request.
 func VerifC04DeltaStep() {
@@ -112,7 +124,7 @@ func VerifC04DeltaStep() {
 	always := false
 	prevWild := false
 	if hasRec {
-		prev = verifC04NameLists[vp.Choice("prevNames", 4)]
+		prev = verifC04NameLists[vp.Choice("prevNames", verifC04NLists(4, len(verifC04NameLists)))]
 		nonceSent = vp.String("nonceSent", 3)
 		always = vp.Choice("alwaysRespond", 2) == 1
 		prevWild = vp.Choice("prevWildcard", 2) == 1
@@ -120,8 +132,8 @@ func VerifC04DeltaStep() {
 			TypeUrl: typeURL, ResourceNames: verifSetOf(prev), NonceSent: nonceSent, NonceAcked: "old", AlwaysRespond: always, Wildcard: prevWild,
 		}
 	}
-	sub := verifC04DeltaLists[vp.Choice("subscribe", len(verifC04DeltaLists))]
-	unsubL := verifC04DeltaLists[vp.Choice("unsubscribe", 5)]
+	sub := verifC04DeltaLists[vp.Choice("subscribe", verifC04NLists(6, len(verifC04DeltaLists)))]
+	unsubL := verifC04DeltaLists[vp.Choice("unsubscribe", verifC04NLists(5, len(verifC04DeltaLists)))]
 	var initial map[string]string
 	if vp.Choice("initial", 2) == 1 {
 		initial = map[string]string{"c": "v1"}
